@@ -34,10 +34,14 @@ def seed_network(cls, g):
         H.add_simplex([N(0), N(1)], **A([[2, [1, 5]]], "e"))
         H.add_simplex([N(1)], idx=E(100))
     H["wt"] = [7]
+    # a value that looks immutable from outside but holds a mutable object
+    H.nodes[N(2)]["mult"] = ("created", ["v1"])
+    for e in list(H.edges)[:1]:
+        H.edges[e]["mult"] = (2020, {"sources": [1]})
     return H
 
 
-def edit(cls, H, name, g):
+def edit(cls, H, name, g, poke_nodes=True):
     N, E = g.node, g.edge
     with warnings.catch_warnings():
         warnings.simplefilter("ignore")
@@ -68,10 +72,23 @@ def edit(cls, H, name, g):
             elif name == "set_attr":
                 H.set_node_attributes(9, name="color")
             elif name == "nested_append":
+                def poke(v):
+                    if isinstance(v, list):
+                        v.append(9)
+                    elif isinstance(v, dict):
+                        for x in v.values():
+                            poke(x)
+                    elif isinstance(v, tuple):
+                        for x in v:
+                            poke(x)
                 for e in list(H.edges):
                     for k, v in H.edges[e].items():
-                        if isinstance(v, list):
-                            v.append(9)
+                        poke(v)
+                # nested independence is promised for copy() (and holds for pickle); the class
+                # constructor shares nested node attribute values, which the property does not exclude
+                for n in list(H.nodes) if poke_nodes else ():
+                    for k, v in H.nodes[n].items():
+                        poke(v)
                 for k in ("wt", "color"):
                     try:
                         v = H[k]
@@ -116,9 +133,11 @@ def replay_behaviour(bid, acts, cls, fam, nslots=2):
     slots[0] = seed_network(cls, g)
     recs = []
     pre, _ = project_all(cls, slots, g)
+    ctor_seen = False
     for k, a in enumerate(acts):
+        ctor_seen = ctor_seen or a["kind"] == "ctor"
         if a["kind"] == "edit":
-            res = edit(cls, slots[a["a"] - 1], a["name"], g)
+            res = edit(cls, slots[a["a"] - 1], a["name"], g, poke_nodes=not ctor_seen)
         else:
             with warnings.catch_warnings():
                 warnings.simplefilter("ignore")
